@@ -8,6 +8,8 @@ pub mod c07;
 pub mod c08;
 pub mod c09;
 pub mod c10;
+pub mod c11;
+pub mod c12;
 pub mod c13;
 pub mod c14;
 pub mod c15;
@@ -35,6 +37,8 @@ pub fn run(cfg: &RunCfg) -> i32 {
         "C08" => c08::run(cfg),
         "C09" => c09::run(cfg),
         "C10" => c10::run(cfg),
+        "C11" => c11::run(cfg),
+        "C12" => c12::run(cfg),
         "C13" => c13::run(cfg),
         "C14" => c14::run(cfg),
         "C15" => c15::run(cfg),
@@ -93,6 +97,12 @@ pub fn replay(prop: &str, file: &str) -> i32 {
             "C10" => serde_json::from_value::<c10::Case>(case.clone())
                 .map_err(|e| Failure::new("replay.parse", "a C10 case", e.to_string()))
                 .and_then(|c| c10::check_case(&c, &strict).map(|_| ())),
+            "C11" => serde_json::from_value::<c11::Case>(case.clone())
+                .map_err(|e| Failure::new("replay.parse", "a C11 case", e.to_string()))
+                .and_then(|c| c11::check_case(&c, &strict).map(|_| ())),
+            "C12" => serde_json::from_value::<c12::Case>(case.clone())
+                .map_err(|e| Failure::new("replay.parse", "a C12 case", e.to_string()))
+                .and_then(|c| c12::check_case(&c, &strict).map(|_| ())),
             "C13" => serde_json::from_value::<c13::Case>(case.clone())
                 .map_err(|e| Failure::new("replay.parse", "a C13 case", e.to_string()))
                 .and_then(|c| c13::check_case(&c, &strict).map(|_| ())),
